@@ -13,16 +13,22 @@ def setup():
         if not ok:
             return 1
         core.coq_makefile()
-        rc, out = core.sh(["make", "-j%d" % core.NPROC], cwd=core.COQ, timeout=7000)
+        # build the dependency cones of the registered properties (and, best effort, everything else)
+        import json
+        man = json.load(open(os.path.join(core.VERIF, "MANIFEST.json")))
+        claimed = [c["property_id"] for c in man["checks"]]
+        targets = ["Properties/%s.vo" % p for p in claimed]
+        rc, out = core.sh(["make", "-j%d" % core.NPROC] + targets, cwd=core.COQ, timeout=7000)
         core.log(out[-1500:])
         if rc != 0:
             return 1
+        core.sh(["make", "-k", "-j%d" % core.NPROC], cwd=core.COQ, timeout=7000)
         import glob
         tags = [""] + sorted(os.path.basename(p)[7:-2] for p in glob.glob(os.path.join(core.COQ, "Extract", "Extract?*.v")))
         for tag in tags:
             ok, out = core.build_model(tag)
             core.log("[setup] model %r:" % tag, out[-500:])
-            if not ok:
+            if not ok and (tag == "" or tag in claimed):
                 return 1
         ok, out = core.build_harness()
         core.log("[setup] harness:", out[-500:])
